@@ -26,9 +26,41 @@ Lemma m_pos_spec' max w v r ln : max <= INT64_MAX -> ws_ok w = true -> 0 <= v ->
   spec2 (v <=? max) (m_pos max (amk (w ++ print_nat v ++ r) ln)) v r.
 Proof. intros. rewrite app_assoc. apply (m_pos_spec max (w, v)); assumption. Qed.
 
-Lemma m_atom_spec' w v r ln : ws_ok w = true -> 0 <= v -> delim r ->
+Ltac bt_term t :=
+  match t with
+  | true => fail 1
+  | false => fail 1
+  | andb ?a ?b => first [bt_term a | bt_term b]
+  | orb ?a ?b => first [bt_term a | bt_term b]
+  | negb ?a => bt_term a
+  | _ => destruct t
+  end.
+Ltac bt_step := match goal with |- ?l = ?r => first [bt_term l | bt_term r] end; cbn [andb orb negb].
+Ltac btaut := repeat bt_step; reflexivity.
+
+Ltac rt_reduce :=
+  cbn [Z.eqb Pos.eqb orb Sm_Basic Sm_Choice Sm_Disjunctive Sm_Cardinality Sm_Weight Sm_Optimize
+       Sm_ClaspIncrement Sm_ClaspAssignExt Sm_ClaspReleaseExt rule_type]; cbv iota.
+
+(* ================= rules: generic in the reader's atom limit vm (ProgramReader::setMaxVar); the statements without a limit that C05
+   uses (read_rule_spec, read_rules_spec) are the instance vm = sm_varMax, re-stated behind the section ================= *)
+Section MaxVar.
+Variable vm : Z.
+Hypothesis Hvm : vm <= INT64_MAX.
+Local Notation m_atom := (m_atom_v vm).
+Local Notation m_body := (m_body_v vm).
+Local Notation m_sum := (m_sum_v vm).
+Local Notation read_rule := (read_rule_v vm).
+Local Notation read_rules := (read_rules_v vm).
+Local Notation atom_in := (ratom_in vm).
+Local Notation rule_in := (rule_in_v vm).
+Lemma m_atom_vspec n r ln : ws_ok (fst n) = true -> 0 <= snd n -> delim r ->
+  spec2 (atom_in n) (m_atom (amk (r_num n ++ r) ln)) (snd n) r.
+Proof. exact (m_atom_v_spec vm n r ln Hvm). Qed.
+
+Lemma m_atom_vspec' w v r ln : ws_ok w = true -> 0 <= v -> delim r ->
   spec2 (atom_in (w, v)) (m_atom (amk (w ++ print_nat v ++ r) ln)) v r.
-Proof. intros. rewrite app_assoc. apply (m_atom_spec (w, v)); assumption. Qed.
+Proof. intros. rewrite app_assoc. apply (m_atom_vspec (w, v)); assumption. Qed.
 
 Lemma umax_le : sm_umax <= INT64_MAX. Proof. unfold sm_umax, INT64_MAX. lia. Qed.
 
@@ -57,7 +89,7 @@ Lemma atoms_spec l fuel r ln : (length l <= fuel)%nat -> forallb num_ok l = true
   spec2 (forallb atom_in l) (m_many m_atom fuel (Z.of_nat (length l)) (amk (r_nums l ++ r) ln)) (vals l) r.
 Proof.
   intros. rewrite <- (map_id (vals l)). apply (m_many_spec m_atom atom_in (fun x => x)); try assumption.
-  intros n r0 ln0 Hn Hr0. destruct (num_ok_inv n Hn) as (_ & Hw & Hv). now apply m_atom_spec.
+  intros n r0 ln0 Hn Hr0. destruct (num_ok_inv n Hn) as (_ & Hw & Hv). now apply m_atom_vspec.
 Qed.
 
 Lemma wrap32s_id v : 0 <= v <= INT_MAX -> wrap32s v = v.
@@ -126,7 +158,7 @@ Proof.
   intros Hb Hr. destruct (body_ok_inv b Hb) as (Hl & Hn & Ha).
   destruct (num_ok_inv _ Hn) as (_ & Hnw & Hnv).
   rewrite d_body_eq by assumption.
-  unfold m_body, r_counts, r_cnt, body_in, count_in. rewrite <- !app_assoc.
+  unfold m_body_v, r_counts, r_cnt, body_in, count_in. rewrite <- !app_assoc.
   eapply spec2_eq; cycle 1.
   - eapply spec2_bind.
     { apply m_pos_spec'; [apply umax_le | now apply sep_ok_ws | lia | now apply delim_num]. }
@@ -142,18 +174,6 @@ Proof.
 Qed.
 
 (* ---- sums ---- *)
-Ltac bt_term t :=
-  match t with
-  | true => fail 1
-  | false => fail 1
-  | andb ?a ?b => first [bt_term a | bt_term b]
-  | orb ?a ?b => first [bt_term a | bt_term b]
-  | negb ?a => bt_term a
-  | _ => destruct t
-  end.
-Ltac bt_step := match goal with |- ?l = ?r => first [bt_term l | bt_term r] end; cbn [andb orb negb].
-Ltac btaut := repeat bt_step; reflexivity.
-
 Lemma m_sum_w_spec bnd b wts r ln :
   num_ok bnd = true -> body_ok b = true -> forallb num_ok wts = true -> length wts = length (b_atoms b) -> delim r ->
   spec2 (count_in (snd bnd) && body_in b && weight_in bnd && forallb atom_in (b_atoms b) && forallb weight_in wts)
@@ -163,7 +183,7 @@ Proof.
   intros Hbn Hb Hw Hlen Hr. destruct (body_ok_inv b Hb) as (Hl & Hn & Ha).
   destruct (num_ok_inv _ Hn) as (_ & Hnw & Hnv). destruct (num_ok_inv _ Hbn) as (_ & Hbw & Hbv).
   rewrite d_body_eq by assumption.
-  unfold m_sum, r_counts, r_cnt, body_in, count_in. rewrite <- !app_assoc.
+  unfold m_sum_v, r_counts, r_cnt, body_in, count_in. rewrite <- !app_assoc.
   eapply spec2_eq; cycle 1.
   - eapply spec2_bind.
     { apply m_pos_spec; [apply umax_le | assumption | assumption | now apply delim_sep]. }
@@ -194,7 +214,7 @@ Proof.
   intros Hbn Hb Hr. destruct (body_ok_inv b Hb) as (Hl & Hn & Ha).
   destruct (num_ok_inv _ Hn) as (_ & Hnw & Hnv). destruct (num_ok_inv _ Hbn) as (_ & Hbw & Hbv).
   rewrite d_body_eq by assumption.
-  unfold m_sum, r_counts, r_cnt, body_in, count_in. rewrite <- !app_assoc.
+  unfold m_sum_v, r_counts, r_cnt, body_in, count_in. rewrite <- !app_assoc.
   eapply spec2_eq; cycle 1.
   - eapply spec2_bind.
     { apply m_pos_spec'; [apply umax_le | now apply sep_ok_ws | lia | now apply delim_num]. }
@@ -214,10 +234,6 @@ Proof.
 Qed.
 
 (* ---- one rule ---- *)
-Ltac rt_reduce :=
-  cbn [Z.eqb Pos.eqb orb Sm_Basic Sm_Choice Sm_Disjunctive Sm_Cardinality Sm_Weight Sm_Optimize
-       Sm_ClaspIncrement Sm_ClaspAssignExt Sm_ClaspReleaseExt rule_type]; cbv iota.
-
 Lemma known_type_false t : known_type t = false ->
   (t =? Sm_Choice) = false /\ (t =? Sm_Disjunctive) = false /\ (t =? Sm_Basic) = false /\ (t =? Sm_Cardinality) = false /\
   (t =? Sm_Weight) = false /\ (t =? Sm_Optimize) = false /\ (t =? Sm_ClaspIncrement) = false /\
@@ -226,16 +242,16 @@ Proof.
   unfold known_type. cbn [existsb]. intros H. repeat (apply orb_false_elim in H; destruct H as [? H]). repeat split; assumption.
 Qed.
 
-Lemma read_rule_spec (o : opts) rl prio r ln : rule_ok rl = true -> delim r ->
+Lemma read_rule_v_spec (o : opts) rl prio r ln : rule_ok rl = true -> delim r ->
   spec2 (rule_in (claspExt o) rl) (read_rule o prio (rule_type rl) (amk (rule_fields rl ++ r) ln)) (d_rule prio rl) r.
 Proof.
   intros Hok Hr. destruct rl as [tw h b|ch tw nw hs b|tw h b bnd|tw h bnd b wts|tw bnd b wts|tw z|tw a v|tw a|t];
-    cbn [rule_ok rule_fields rule_in d_rule] in *.
+    cbn [rule_ok rule_fields rule_in_v d_rule] in *.
   - (* basic *)
     bsplit. destruct (num_ok_inv h ltac:(assumption)) as (_ & Hw & Hv). destruct (body_ok_inv b ltac:(assumption)) as (Hl & Hn & Ha).
-    unfold read_rule. rt_reduce. rewrite <- !app_assoc.
+    unfold read_rule_v. rt_reduce. rewrite <- !app_assoc.
     eapply spec2_eq; cycle 1.
-    + eapply spec2_bind. { apply m_atom_spec; [assumption | assumption | unfold r_counts, r_cnt; rewrite <- !app_assoc; now apply delim_sep]. }
+    + eapply spec2_bind. { apply m_atom_vspec; [assumption | assumption | unfold r_counts, r_cnt; rewrite <- !app_assoc; now apply delim_sep]. }
       intros _ ln1. cbv beta iota.
       eapply spec2_bind. { apply m_body_spec; assumption. }
       intros _ ln2. cbv beta iota. apply spec2_ret.
@@ -249,49 +265,49 @@ Proof.
     rewrite E. clear E. unfold r_cnt. rewrite <- !app_assoc.
     eapply spec2_eq; cycle 1.
     + eapply spec2_bind.
-      { apply (m_atom_spec' nw (Z.of_nat (length hs))); [now apply sep_ok_ws | lia |].
+      { apply (m_atom_vspec' nw (Z.of_nat (length hs))); [now apply sep_ok_ws | lia |].
         apply delim_nums; [assumption|]. unfold r_counts, r_cnt. rewrite <- !app_assoc. now apply delim_sep. }
       intros _ ln1. cbv beta iota. cbn [snd].
       eapply spec2_bind. { apply atoms_spec; [apply fuel_nums; assumption | assumption |]. unfold r_counts, r_cnt. rewrite <- !app_assoc. now apply delim_sep. }
       intros _ ln2. cbv beta iota.
       eapply spec2_bind. { apply m_body_spec; assumption. }
       intros _ ln3. cbv beta iota. apply spec2_ret.
-    + unfold atom_in at 1. cbn [snd]. btaut.
+    + unfold ratom_in at 1. cbn [snd]. btaut.
   - (* cardinality *)
     bsplit. destruct (num_ok_inv h ltac:(assumption)) as (_ & Hw & Hv). destruct (body_ok_inv b ltac:(assumption)) as (Hl & Hn & Ha).
-    unfold read_rule. rt_reduce. rewrite <- !app_assoc.
+    unfold read_rule_v. rt_reduce. rewrite <- !app_assoc.
     eapply spec2_eq; cycle 1.
-    + eapply spec2_bind. { apply m_atom_spec; [assumption | assumption | unfold r_counts, r_cnt; rewrite <- !app_assoc; now apply delim_sep]. }
+    + eapply spec2_bind. { apply m_atom_vspec; [assumption | assumption | unfold r_counts, r_cnt; rewrite <- !app_assoc; now apply delim_sep]. }
       intros _ ln1. cbv beta iota.
       eapply spec2_bind. { apply m_sum_c_spec; assumption. }
       intros _ ln2. cbv beta iota. apply spec2_ret.
     + btaut.
   - (* weight *)
     bsplit. destruct (num_ok_inv h ltac:(assumption)) as (_ & Hw & Hv).
-    unfold read_rule. rt_reduce. rewrite <- !app_assoc.
+    unfold read_rule_v. rt_reduce. rewrite <- !app_assoc.
     eapply spec2_eq; cycle 1.
-    + eapply spec2_bind. { apply m_atom_spec; [assumption | assumption | now apply delim_num]. }
+    + eapply spec2_bind. { apply m_atom_vspec; [assumption | assumption | now apply delim_num]. }
       intros _ ln1. cbv beta iota.
       eapply spec2_bind. { apply m_sum_w_spec; try assumption. now apply Nat.eqb_eq. }
       intros _ ln2. cbv beta iota. apply spec2_ret.
     + btaut.
   - (* optimize *)
-    bsplit. unfold read_rule. rt_reduce. rewrite <- !app_assoc.
+    bsplit. unfold read_rule_v. rt_reduce. rewrite <- !app_assoc.
     eapply spec2_eq; cycle 1.
     + eapply spec2_bind. { apply m_sum_w_spec; try assumption. now apply Nat.eqb_eq. }
       intros _ ln2. cbv beta iota. apply spec2_ret.
     + btaut.
   - (* 90 *)
     destruct (num_ok_inv z Hok) as (_ & Hw & Hv).
-    unfold read_rule. rt_reduce. destruct (claspExt o); cbn [andb]; [|eexists; reflexivity].
+    unfold read_rule_v. rt_reduce. destruct (claspExt o); cbn [andb]; [|eexists; reflexivity].
     eapply spec2_eq; cycle 1.
     + eapply spec2_bind. { apply m_pos_spec; [apply umax_le | assumption | assumption | assumption]. }
       intros _ ln1. cbv beta iota. apply spec2_require. intros _. apply spec2_ret.
     + unfold count_in. change sm_umax with UINT_MAX. btaut.
   - (* 91 *)
     bsplit. destruct (num_ok_inv a ltac:(assumption)) as (_ & Hw & Hv). destruct (num_ok_inv v ltac:(assumption)) as (_ & Hw2 & Hv2).
-    unfold read_rule. rt_reduce. rewrite <- !app_assoc. destruct (claspExt o); cbn [andb]; [|eexists; reflexivity].
-    eapply spec2_bind. { apply m_atom_spec; [assumption | assumption | now apply delim_num]. }
+    unfold read_rule_v. rt_reduce. rewrite <- !app_assoc. destruct (claspExt o); cbn [andb]; [|eexists; reflexivity].
+    eapply spec2_bind. { apply m_atom_vspec; [assumption | assumption | now apply delim_num]. }
     intros _ ln1. cbv beta iota.
     rewrite <- (andb_true_r (snd v <=? 2)).
     eapply spec2_bind. { apply (m_pos_spec sm_extval_max); [unfold sm_extval_max, INT64_MAX; lia | assumption | assumption | assumption]. }
@@ -303,13 +319,13 @@ Proof.
     rewrite Ev. apply spec2_ret.
   - (* 92 *)
     destruct (num_ok_inv a Hok) as (_ & Hw & Hv).
-    unfold read_rule. rt_reduce. destruct (claspExt o); cbn [andb]; [|eexists; reflexivity].
+    unfold read_rule_v. rt_reduce. destruct (claspExt o); cbn [andb]; [|eexists; reflexivity].
     rewrite <- (andb_true_r (atom_in a)).
-    eapply spec2_bind. { apply m_atom_spec; assumption. }
+    eapply spec2_bind. { apply m_atom_vspec; assumption. }
     intros _ ln1. cbv beta iota. apply spec2_ret.
   - (* unknown type *)
     bsplit. apply negb_true_iff in H0. destruct (known_type_false _ H0) as (E1 & E2 & E3 & E4 & E5 & E6 & E7 & E8 & E9).
-    unfold read_rule. cbn [rule_type]. rewrite E1, E2, E3, E4, E5, E6, E7, E8, E9. cbn [orb]. eexists. reflexivity.
+    unfold read_rule_v. cbn [rule_type]. rewrite E1, E2, E3, E4, E5, E6, E7, E8, E9. cbn [orb]. eexists. reflexivity.
 Qed.
 
 (* ---- results that carry calls ---- *)
@@ -342,19 +358,19 @@ Proof.
   rewrite !app_length.
 Abort.
 
-Lemma read_rules_spec (o : opts) : forall l lead fuel prio w r ln,
+Lemma read_rules_v_spec (o : opts) : forall l lead fuel prio w r ln,
   (length l < fuel)%nat -> rules_ok lead l = true -> front_ok (lead || negb (isnil l)) w = true -> delim r ->
   cspec (forallb (rule_in (claspExt o)) l)
         (read_rules fuel o prio (amk (flat_map r_rule l ++ r_zero w ++ r) ln)) (d_rules prio l) r.
 Proof.
   induction l as [|rl l IH]; intros lead fuel prio w r ln Hfu Hok Hw Hr.
-  - destruct fuel as [|fu]; [cbn in Hfu; lia|]. cbn [flat_map app forallb d_rules read_rules]. unfold r_zero. rewrite <- app_assoc.
+  - destruct fuel as [|fu]; [cbn in Hfu; lia|]. cbn [flat_map app forallb d_rules read_rules_v]. unfold r_zero. rewrite <- app_assoc.
     assert (Hp : spec2 (0 <=? sm_rt_max) (m_pos sm_rt_max (amk (w ++ print_nat 0 ++ r) ln)) 0 r).
     { apply m_pos_spec'; [unfold sm_rt_max, INT64_MAX; lia | now apply front_ok_ws in Hw | lia | assumption]. }
     change (print_nat 0) with [48] in Hp. cbn [app] in Hp. cbn [app]. destruct Hp as [ln1 E]. rewrite E.
     change (0 =? 0) with true. cbv iota. exists ln1. reflexivity.
   - destruct fuel as [|fu]; [cbn in Hfu; lia|]. cbn [rules_ok] in Hok. bsplit.
-    cbn [flat_map forallb d_rules read_rules]. unfold r_rule at 1. rewrite <- !app_assoc.
+    cbn [flat_map forallb d_rules read_rules_v]. unfold r_rule at 1. rewrite <- !app_assoc.
     assert (Hnext : delim (flat_map r_rule l ++ r_zero w ++ r)).
     { destruct l as [|r2 l2].
       - cbn [flat_map app]. unfold r_zero. rewrite <- app_assoc. apply delim_sep.
@@ -368,7 +384,7 @@ Proof.
     { apply m_pos_spec'; [unfold sm_rt_max, INT64_MAX; lia | eapply front_ok_ws; eassumption | lia | now apply delim_fields]. }
     destruct (rule_type rl <=? sm_rt_max) eqn:Ert.
     + destruct Hp as [ln1 E]. rewrite E. destruct (Z.eqb_spec (rule_type rl) 0) as [E0|_]; [lia|].
-      pose proof (read_rule_spec o rl prio (flat_map r_rule l ++ r_zero w ++ r) ln1 ltac:(assumption) Hnext) as Hrule.
+      pose proof (read_rule_v_spec o rl prio (flat_map r_rule l ++ r_zero w ++ r) ln1 ltac:(assumption) Hnext) as Hrule.
       destruct (rule_in (claspExt o) rl) eqn:Ein; cbn [andb].
       * destruct Hrule as [ln2 E2]. rewrite E2.
         specialize (IH true fu (snd (d_rule prio rl)) w r ln2 ltac:(cbn in Hfu; lia) ltac:(assumption)
@@ -381,9 +397,21 @@ Proof.
     + (* a known or unknown type above the limit of matchPos cannot be in range *)
       destruct Hp as [ln1 E]. rewrite E.
       assert (rule_in (claspExt o) rl = false).
-      { destruct rl; cbn [rule_type rule_in] in *; try destruct choice; try reflexivity; vm_compute in Ert; discriminate. }
+      { destruct rl; cbn [rule_type rule_in_v] in *; try destruct choice; try reflexivity; vm_compute in Ert; discriminate. }
       rewrite H2. cbn [andb]. eexists _, ln1. reflexivity.
 Qed.
+
+End MaxVar.
+
+(* the instance without a limit (vm = sm_varMax = atomMax), in the vocabulary of Spec.in_range - by conversion *)
+Lemma read_rule_spec (o : opts) rl prio r ln : rule_ok rl = true -> delim r ->
+  spec2 (rule_in (claspExt o) rl) (read_rule o prio (rule_type rl) (amk (rule_fields rl ++ r) ln)) (d_rule prio rl) r.
+Proof. exact (read_rule_v_spec sm_varMax atomMax_le_int64 o rl prio r ln). Qed.
+Lemma read_rules_spec (o : opts) : forall l lead fuel prio w r ln,
+  (length l < fuel)%nat -> rules_ok lead l = true -> front_ok (lead || negb (isnil l)) w = true -> delim r ->
+  cspec (forallb (rule_in (claspExt o)) l)
+        (read_rules fuel o prio (amk (flat_map r_rule l ++ r_zero w ++ r) ln)) (d_rules prio l) r.
+Proof. exact (read_rules_v_spec sm_varMax atomMax_le_int64 o). Qed.
 
 (* ---- line breaks that belong to the next token's whitespace ---- *)
 Definition nonws_hd (x : list Z) : Prop := match x with [] => True | c :: _ => is_ws c = false end.
@@ -702,10 +730,10 @@ Proof.
   - destruct (syms_ok_in false (y :: l) w H Hw) as [[Hi Hf]|[C _]]; [|discriminate]. split; assumption.
 Qed.
 
-Lemma step_spec (o : opts) lead s r ln : step_ok lead s = true -> delim r ->
-  cspec (step_in (claspExt o) s) (do_parse o (amk (r_step s ++ r) ln)) (d_step s) r.
+Lemma step_v_spec vm (Hvm : vm <= INT64_MAX) (o : opts) lead s r ln : step_ok lead s = true -> delim r ->
+  cspec (step_in_v vm (claspExt o) s) (do_parse_v vm o (amk (r_step s ++ r) ln)) (d_step s) r.
 Proof.
-  unfold step_ok. intros H Hr. bsplit. unfold do_parse, r_step, step_in, d_step. rewrite <- !app_assoc.
+  unfold step_ok. intros H Hr. bsplit. unfold do_parse_v, r_step, step_in_v, d_step. rewrite <- !app_assoc.
   destruct (syms_front _ _ ltac:(eassumption) ltac:(eassumption)) as [Hsin Hsf].
   assert (HB : forall k x, is_digit (hd 0 (k ++ x)) = false -> forall w, ws_ok w = true -> delim (w ++ k ++ x)).
   { intros k x Hk w Hw. destruct (k ++ x) as [|c y]; [rewrite app_nil_r; destruct w as [|c w]; [exact I|cbn in Hw; bsplit; cbn; now apply ws_not_digit]|]. now apply delim_kw. }
@@ -721,7 +749,7 @@ Proof.
   - eapply cspec_bind. { apply cspec_ret. }
     intros _ ln0.
     eapply cspec_bind.
-    { apply (read_rules_spec o (s_rules s) lead _ 0 (s_rend s) (flat_map r_sym (s_syms s) ++ r_zero (s_send s) ++ R2) ln0).
+    { apply (read_rules_v_spec vm Hvm o (s_rules s) lead _ 0 (s_rend s) (flat_map r_sym (s_syms s) ++ r_zero (s_send s) ++ R2) ln0).
       - unfold fuel_of. cbn [rest]. rewrite app_length.
         pose proof (len_flat r_rule (s_rules s)) as Hl.
         assert (length (s_rules s) <= length (flat_map r_rule (s_rules s)))%nat; [|lia].
@@ -752,3 +780,7 @@ Proof.
   - cbn [andb]. btaut.
   - reflexivity.
 Qed.
+
+Lemma step_spec (o : opts) lead s r ln : step_ok lead s = true -> delim r ->
+  cspec (step_in (claspExt o) s) (do_parse o (amk (r_step s ++ r) ln)) (d_step s) r.
+Proof. exact (step_v_spec sm_varMax atomMax_le_int64 o lead s r ln). Qed.
